@@ -67,11 +67,12 @@ def argparse_combos():
                                 st = "a command line without -p, or without exactly one of -s/-b, is rejected with a non-zero status"
                             else:
                                 is_s = inp in ("-s", "--assembly")
-                                ok = isinstance(outcome, Namespace) and outcome.pattern == "rule.yaml" \
-                                    and outcome.assembly == ("in.file" if is_s else None) and outcome.binary == (None if is_s else "in.file") \
-                                    and outcome.all_matches is allm and outcome.return_only_address is only \
-                                    and (outcome.macros == macros if macros else outcome.macros is None) \
-                                    and outcome.info is True and outcome.enable_logging_to_terminal is True
+                                g = lambda a_: getattr(outcome, a_, "<absent>")       # a missing attribute fails the obligation
+                                ok = isinstance(outcome, Namespace) and g("pattern") == "rule.yaml" \
+                                    and g("assembly") == ("in.file" if is_s else None) and g("binary") == (None if is_s else "in.file") \
+                                    and g("all_matches") is allm and g("return_only_address") is only \
+                                    and (g("macros") == macros if macros else g("macros") is None) \
+                                    and g("info") is True and g("enable_logging_to_terminal") is True
                                 st = "options are parsed into pattern / assembly|binary / all_matches / return_only_address / macros (in order)"
                             obs.append(simple_ob(f"parse_args:{' '.join(argv[1:]) or 'none'}", PA, "POST", st, ok, P, detail=repr(outcome), witness=" ".join(argv)))
     finally:
